@@ -28,7 +28,11 @@ def _num_objects():
     for o, f in [(3,0),(4,0),(5,0),(6,0),(7,0),(8,0),(3,1),(5,1)]: objs.append(("h_num_unif.cpp", ["VH_ORDER=%d" % o, "VH_REALF=%d" % f], "unif%d_%d" % (o, f)))
     return objs
 
+VALGRIND = ["valgrind", "--tool=memcheck", "--error-exitcode=92", "--track-origins=yes", "--leak-check=full", "--errors-for-leak-kinds=definite", "-q"]
+
 BINARIES = {
+    "h_mc": {"flavour": "memcheck", "objects": [("h_fmm_main.cpp", ["VH_MC=1"], "main"), ("h_fmm_tu.cpp", ["VH_DIM=3", "VH_PER=0"], "d3_0"), ("h_fmm_tu.cpp", ["VH_DIM=3", "VH_PER=1"], "d3_1")],
+             "about": "Dim-3 slices of h_fmm built without sanitizers and without pattern-initialised locals, run under valgrind memcheck (uninitialised-value use)"},
     "h_num": {"flavour": "plain", "objects": _num_objects(), "cflags": ["-fopenmp"], "ldflags": ["-lpthread", "-lfftw3", "-lfftw3f"], "about": "rotation / uniform kernels and direct P2P routines against long double references (assertions on, -O2)"},
     "h_mem": {"flavour": "asan", "objects": [("h_mem.cpp", [], "main")], "about": "TbfMemoryBlock layouts + byte-copied views of cell/particle groups with operators run on the views; viewer bounds hook H1"},
     "h_index": {"flavour": "asan", "objects": _index_objects(), "about": "public index API of Morton (Dim 1..4, periodic or not) and Hilbert (Dim 3) orderings against the coordinate model"},
@@ -224,8 +228,99 @@ CHECKS = {
         "require_events": ["targets-compared", "fmm-runs", "invariance-pairs", "cells-compared", "periodic-runs", "tsm-runs"],
         "assumptions": ["accuracy bounds are calibrated, not derived"],
     },
+    "C15": {
+        "level": EXPL,
+        "technique": "sanitizers as the oracle: the union of the C01/C09/C10/C13/C03 workloads in the ASan+UBSan(+LSan) build with the library's assertions, _GLIBCXX_ASSERTIONS and the viewer bounds hook enabled, the task executors also under TSan, plus a valgrind-memcheck subset for uninitialised-value use; every report is reduced to (tool, kind, first frame in /repo/src)",
+        "claim": "No sanitizer report, assertion failure, leak or hook failure occurred on any explored execution of building, executing (sequential, target/source, periodic, OpenMP under hostile schedules), rebuilding, querying and destroying trees. This is 'no report on the executions explored', not memory safety: red-zone tools miss non-adjacent and intra-object overflows (the bounds hook narrows this for group buffers only).",
+        "note": "Only keys produced by a tool (asan/ubsan/lsan/tsan/memcheck/assert/glibcxx-assert/abort/signal/hang) count here; behavioural keys of the same runs belong to their own checks. MSan is not used (uninstrumented libstdc++/FFTW).",
+        "jobs": [{"bin": "h_fmm", "mode": "c01"}, {"bin": "h_fmm", "mode": "c09"}, {"bin": "h_fmm", "mode": "c10"}, {"bin": "h_tree", "mode": "c13"},
+                 {"bin": "h_sched", "mode": "c03"}, {"bin": "h_sched", "mode": "c09"}, {"bin": "h_sched_tsan", "mode": "c03"}, {"bin": "h_mem", "mode": "c14", "thorough_only": True},
+                 {"bin": "h_mc", "mode": "c10", "wrapper": VALGRIND, "per_case": True, "stride": 2, "limit": {"quick": 24, "thorough": 150}, "env": {"VH_CASE_TIMEOUT": "1200", "VH_NO_LEAK_CHECK": "1"}, "timeout": 2400},
+                 {"bin": "h_mc", "mode": "c09", "wrapper": VALGRIND, "per_case": True, "stride": 2, "limit": {"quick": 12, "thorough": 80}, "env": {"VH_CASE_TIMEOUT": "1200", "VH_NO_LEAK_CHECK": "1"}, "timeout": 2400},
+                 {"bin": "h_mc", "mode": "c01", "wrapper": VALGRIND, "per_case": True, "stride": 2, "limit": {"quick": 12, "thorough": 80}, "env": {"VH_CASE_TIMEOUT": "1200", "VH_NO_LEAK_CHECK": "1"}, "timeout": 2400}],
+        "key_filter": ["^(asan|ubsan|lsan|tsan|memcheck|assert|glibcxx-assert|abort|signal|hang|exit):"],
+        "rule": "cases = the quick (resp. thorough) case sets of C01, C09, C10, C13, C03 (ASan+UBSan, TSan for the scheduler runs) and a strided subset of the Dim-3 C01/C09/C10 cases under valgrind memcheck with origin tracking. non-trivial / distinct as in the contributing checks. Evidence lists the jobs and their builds.",
+        "require_events": ["pairs-checked", "periodic-runs", "rebuild-cycles", "schedules-executed"],
+        "assumptions": ["a clean run is 'no report on K executions reaching these operators', not memory safety"],
+    },
 }
-SPECIAL = {}
+# ------------------------------------------------------------------------------------------------ C19: configuration matrix
+def _cell_name(c): return "cfg_d%d_r%d_o%d_a%d_b%d_e%d_v%d" % c
+
+def c19_cells(tier):
+    full = []
+    for d in (1, 2, 3, 4):
+        for r in (0, 1):
+            for o in ((0, 1, 2) if d == 3 else (0, 1)):
+                for a in (0, 1):
+                    for b in (0, 1):
+                        for e in (0, 1, 2):
+                            full.append((d, r, o, a, b, e, 0))
+                if True:
+                    for o2 in (0, 1):
+                        for b in (0, 1):
+                            full.append((d, r, o2, 0, b, 0, 1)); full.append((d, r, o2, 0, b, 0, 2))
+    full = sorted(set(full))
+    if tier == "thorough": return full
+    # covering subset: every value of every axis appears, and the pairs (dimension x ordering), (dimension x executor)
+    quick = [(1,0,0,1,1,0,0), (1,1,1,0,1,1,0), (1,0,0,0,0,2,0), (2,1,0,1,1,1,0), (2,0,1,0,1,0,0), (2,0,1,1,0,2,0), (3,0,2,0,1,0,0), (3,1,2,1,0,1,0),
+             (3,0,1,1,1,2,0), (3,1,0,0,0,0,0), (3,0,1,0,1,1,0), (4,0,0,1,1,0,0), (4,1,1,0,1,2,0), (4,0,0,0,0,1,0), (4,1,1,1,1,0,0), (1,0,1,1,0,2,0),
+             (2,1,0,0,1,2,0), (3,1,2,0,0,2,0), (1,1,0,0,1,0,1), (2,0,1,0,1,0,2), (3,0,0,0,1,0,1), (3,1,1,0,0,0,2), (4,0,0,0,1,0,2), (4,1,1,0,1,0,1)]
+    return quick
+
+for _c in c19_cells("thorough"):
+    BINARIES[_cell_name(_c)] = {"flavour": "asan", "cflags": ["-fopenmp"], "ldflags": ["-lpthread"],
+        "objects": [("cfg_tu.cpp", ["VC_DIM=%d" % _c[0], "VC_REALF=%d" % _c[1], "VC_ORD=%d" % _c[2], "VC_AUTO=%d" % _c[3], "VC_REBUILD=%d" % _c[4], "VC_EXEC=%d" % _c[5], "VC_VARIANT=%d" % _c[6]], "main"), ("rt/sched.cpp", [], "sched")],
+        "about": "C19 configuration cell"}
+
+def quick_setup_binaries():
+    return [_cell_name(c) for c in c19_cells("quick")]
+
+def run_c19(V, cid, tier, seed):
+    """Build every cell (a compile error inside /repo/src is a verdict, not a harness failure), then run the cells that built."""
+    import time, re, concurrent.futures as cf
+    t0 = time.time()
+    cells = c19_cells(tier)
+    recs, built = [], {}
+    def build_one(c):
+        try: return c, V.build([_cell_name(c)], quiet=True)[_cell_name(c)], None
+        except V.BuildError as e: return c, None, e.err
+    with cf.ThreadPoolExecutor(max(1, V.NPROC // 2)) as ex:   # each cell compiles two objects
+        results = list(ex.map(build_one, cells))
+    for c, path, err in results:
+        if path: built[c] = path; continue
+        m = re.search(r"(/repo/src/\S+?):(\d+):\d+: error: (.+)", err or "")
+        if m:
+            msg = re.sub(r"[\u2018\u2019']", "", m.group(3)); msg = re.sub(r"<.*", "", msg)[:70].strip()
+            key = "build:%s:%s" % (m.group(1).replace("/repo/src/", ""), msg)
+            recs.append({"k": 0, "_mode": "c19", "_bin": _cell_name(c), "sig": "build:" + _cell_name(c), "nontrivial": True, "verdict": "violation",
+                         "violations": [{"key": key, "detail": "configuration %s does not compile: %s:%s: %s" % (_cell_name(c), m.group(1), m.group(2), m.group(3)[:300])}],
+                         "events": {}, "desc": "translation unit of configuration " + _cell_name(c), "_stderr": (err or "")[:6000]})
+        else:
+            print("HARNESS-FAILURE property=%s cell %s failed to build outside /repo/src:\n%s" % (cid, _cell_name(c), (err or "")[-1500:]))
+            return 2
+    V.prune_cache()
+    with cf.ThreadPoolExecutor(V.NPROC) as ex:
+        futs = []
+        for c, path in built.items():
+            n = V.get_count(path, "c19", tier)
+            futs.append(ex.submit(V.run_chunk, path, "c19", seed, 0, n, tier, 1800, None, None))
+        for f in futs: recs.extend(f.result())
+    for r in recs: r.setdefault("events", {}); 
+    recs.append({"k": -1, "_mode": "c19", "_bin": "matrix", "verdict": "ok", "sig": "", "nontrivial": False, "desc": "", "events": {"cells-built": len(built), "cells-in-matrix": len(cells)}})
+    return V.judge(cid, CHECKS[cid], tier, seed, recs, time.time() - t0, False)
+
+CHECKS["C19"] = {
+    "level": EXPL,
+    "technique": "build probe (observation of the compiler on one translation unit per documented configuration) + runtime monitoring of each configuration's program with the C01/C06/C13 oracles under ASan/UBSan",
+    "claim": "Every explored cell of the documented matrix (dimension 1..4 x float/double x Morton/periodic Morton/Hilbert(3D) x automatic/explicit block size x with/without rebuild x sequential/OpenMP/target-source executor, plus data type != coordinate type and zero result values) compiled, and its program satisfied the exactly-once, construction and rebuild oracles on a seeded sample of trees.",
+    "note": "The compile half is a build probe, not runtime monitoring (it is the observable the property names). Quick runs a 24-cell covering subset, thorough the full matrix (280 cells). The selector header with OpenMP+Specx+StarPU all defined needs mock runtime headers and is not covered in this round.",
+    "jobs": [],
+    "rule": "case = one seeded tree of one configuration cell, cycling through construction (C06 oracle), exactly-once through the configured executor (C01 oracle: P-set/P-poly, OpenMP under the scheduler shim with O-seq/O-dag, target/source, counting kernels for the data-type and zero-rhs variants), rebuild cycles (C13 oracle) or structure (cells without rebuild). non-trivial as in the contributing oracles; distinct = (cell, case signature).",
+    "require_events": ["cell-cases", "cells-built"],
+    "assumptions": ["a configuration that does not compile is a violation whose witness is the compiler's first error inside /repo/src"],
+}
+SPECIAL = {"C19": run_c19}
 NOT_CLAIMED = {}
 HOOK_COMMITS = ["1b1b322 verif hook (guard TBFMM_VERIF): index-range check in the block viewers"]
 
